@@ -4,7 +4,7 @@ which survive the repository's own test suite, and which of the survivors do the
 usage: mutants.py <out.json> [max_mutants] [seed]
 Nothing is written to /repo; the worktree lives under /tmp and is removed at the end.  A surviving, undetected mutant is
 either an equivalent mutant (no observable change) or a blind spot of the checks: the report lists them for triage."""
-import sys, os, ast, json, random, subprocess, shutil
+import sys, os, ast, json, random, subprocess, shutil, signal
 
 VERIF = os.path.dirname(os.path.dirname(os.path.abspath(__file__)))
 PY = '/venv/bin/python'
@@ -18,10 +18,18 @@ CMPSRC = {ast.Lt: '<', ast.LtE: '<=', ast.Gt: '>', ast.GtE: '>=', ast.Eq: '==', 
 
 
 def sh(cmd, cwd=None, env=None, timeout=3600):
+    """run in its own process group; on timeout the whole group is killed (a mutant may loop forever, allocating)"""
+    pr = subprocess.Popen(cmd, shell=True, cwd=cwd, env=env, stdout=subprocess.PIPE, stderr=subprocess.STDOUT, text=True,
+                          start_new_session=True)
     try:
-        r = subprocess.run(cmd, shell=True, cwd=cwd, capture_output=True, text=True, timeout=timeout, env=env)
-        return r.returncode, r.stdout + r.stderr
+        out, _ = pr.communicate(timeout=timeout)
+        return pr.returncode, out
     except subprocess.TimeoutExpired:
+        try:
+            os.killpg(pr.pid, signal.SIGKILL)
+        except ProcessLookupError:
+            pass
+        pr.communicate()
         return 124, 'timeout'
 
 
@@ -95,18 +103,23 @@ def main():
             lines[line - 1] = L[:c0] + new + L[c1:]
             open(p, 'w').write('\n'.join(lines))
             rec = dict(file=f, line=line, col=c0, old=old, new=new, kind=kind, source_line=L.strip())
-            rc, o = sh('%s -m pytest -x -q -p no:cacheprovider' % PY, cwd=wt, timeout=300)
+            rc, o = sh('ulimit -v 8000000; %s -m pytest -x -q -p no:cacheprovider' % PY, cwd=wt, timeout=90)
             rec['tests'] = 'pass' if rc == 0 else 'fail'
             if rc == 0:
                 env = dict(os.environ, DROOP_REPO=wt, VERIF_NPROC='3', VERIF_SEED=os.environ.get('VERIF_SEED', '0'))
                 procs = {c: subprocess.Popen('%s harness/check.py %s --tier quick' % (PY, c), shell=True, cwd=VERIF, env=env,
-                                             stdout=subprocess.PIPE, stderr=subprocess.STDOUT, text=True) for c in ALL}
+                                             stdout=subprocess.PIPE, stderr=subprocess.STDOUT, text=True,
+                                             start_new_session=True) for c in ALL}
                 det = []
                 for c, pr in procs.items():
                     try:
                         pr.communicate(timeout=3600)
                     except subprocess.TimeoutExpired:
-                        pr.kill()
+                        try:
+                            os.killpg(pr.pid, signal.SIGKILL)
+                        except ProcessLookupError:
+                            pass
+                        pr.communicate()
                     if pr.returncode == 1:
                         det.append(c)
                 rec['detected_by'] = det
